@@ -6,6 +6,8 @@
 //! monitor "every effect processes with the rate in force" is evaluated on it.  The audio-thread steps that
 //! fall BETWEEN a track's `sample_rate.load()` and its enqueue are driven from inside the probe's `init`
 //! (which the add path calls exactly there), so the racy histories need no hook in kira.
+//! F14 (a track queued across a rate change kept the old rate) is repaired: there is no exception class any more,
+//! a stale effect is a plain failure; the former witnesses are fixed regression cases that run every time.
 //! Part B (real effects): Delay buffer length (echo position) and Filter output across a rate change.
 //! Part C (scenes): the same scene rendered at many device rates and across mid-stream changes, measured in seconds.
 #![allow(dead_code)]
@@ -24,8 +26,6 @@ use kira::{AudioManager, AudioManagerSettings, Capacities, Decibels, Easing, Fra
 use std::cell::RefCell;
 use std::sync::{Arc, Mutex};
 use std::time::Duration;
-
-const STALE: &str = "effect_rate_stale_when_track_queued_during_change";
 
 // ---------------------------------------------------------------------------------------------
 // a backend whose renderer can also be reached from inside an effect's `init`
@@ -236,8 +236,8 @@ enum H {
 
 struct HistResult {
 	obs: Vec<i128>,
-	/// monitor failures: (what, in the known class?)
-	fails: Vec<(String, bool)>,
+	/// monitor failures
+	fails: Vec<String>,
 	nproc: usize,
 	stale_seen: bool,
 }
@@ -367,28 +367,28 @@ fn run_hist(h: &Hist) -> HistResult {
 				let dt_ok = dt.to_bits() == (1.0 / in_force as f64).to_bits();
 				let told_ok = last.map(|x| x.1) == Some(in_force);
 				if !dt_ok && reported.insert((i, 0)) {
-					fails.push((format!("probe {id}: process called with dt = {dt:e} while the device rate is {in_force} Hz"), false));
+					fails.push(format!("probe {id}: process called with dt = {dt:e} while the device rate is {in_force} Hz"));
 				}
 				if !told_ok {
 					stale_seen = true;
-					// class predicate of the known finding: last told by `init` on the caller's thread, a change to a
-					// different rate fell between that track's load and its pick-up, and no change happened since
+					// how it came about (for the report only; every stale effect is a failure)
 					let ls = load_seq.get(id).copied();
 					let fp = first_proc[i].unwrap();
-					let in_class = match (last, ls) {
-						(Some((false, _)), Some(ls)) => {
-							changes.iter().any(|(c, differs)| *differs && *c >= ls && *c < fp) && !changes.iter().any(|(c, _)| *c > fp && *c < cb)
-						}
+					let queued_across_change = match (last, ls) {
+						(Some((false, _)), Some(ls)) => changes.iter().any(|(c, differs)| *differs && *c >= ls && *c < fp),
 						_ => false,
 					};
 					if reported.insert((i, 1)) {
-						fails.push((
-							format!(
-								"probe {id}: processes at device rate {in_force} Hz (dt = 1/{in_force}) but was last told {:?} Hz ({})",
-								last.map(|x| x.1),
-								if in_class { "by init on the caller's thread; the change fell between the track's load and its pick-up and its fan-out did not reach the queued track" } else if last.map(|x| x.0) == Some(false) { "by init; a later change did not reach it although no change raced with its add" } else { "by on_change_sample_rate" }
-							),
-							in_class,
+						fails.push(format!(
+							"probe {id}: processes at device rate {in_force} Hz (dt = 1/{in_force}) but was last told {:?} Hz ({})",
+							last.map(|x| x.1),
+							if queued_across_change {
+								"by init on the caller's thread; the change fell between the track's load and its pick-up and the track was not re-synchronised at its first on_start_processing (F14 is back)"
+							} else if last.map(|x| x.0) == Some(false) {
+								"by init; a later change did not reach it although no change raced with its add"
+							} else {
+								"by on_change_sample_rate"
+							}
 						));
 					}
 				}
@@ -413,40 +413,71 @@ fn emit_hist(s: &mut Session, kind: &str, h: &Hist) {
 	if r.stale_seen {
 		s.count("hist_with_stale_effect");
 	}
-	for (what, in_class) in r.fails {
-		if in_class {
-			// keep the summary small: the first 40 instances of the known class are recorded, all are counted
-			s.count("stale_probe_in_known_class");
-			if s.failures.iter().filter(|f| f.class.as_deref() == Some(STALE)).count() >= 40 {
-				continue;
-			}
-		}
-		s.fail(h.describe(), what, if in_class { Some(STALE) } else { None });
+	for what in r.fails {
+		s.fail(h.describe(), what, None);
 	}
 }
 
-/// the witnesses of the `_refuted` theorems (C16/Proofs*.v), replayed on the real code
-fn witnesses() -> Vec<(&'static str, Hist)> {
+/// fixed cases, run every time: the histories of `f14_regression` (C16/ProofsWitness.v) -- the former F14 witnesses
+/// and their variants for every track kind -- and the orders that were always fine
+fn regressions() -> Vec<(&'static str, Hist)> {
+	let probe = |i: i64| vec![EShape::Probe(i)];
 	let add = |inject: Vec<AOp>| Item::Add { dest: Dest::Sub { spatial: false }, tid: 1, effs: vec![EShape::Probe(0)], inject };
+	let addk = |dest: Dest, tid: i64, id: i64, inject: Vec<AOp>| Item::Add { dest, tid, effs: probe(id), inject };
+	let ch = |r: u32| Item::A(AOp::Change(r));
+	let cb = |n: usize| Item::A(AOp::Callback(n));
+	let hist = |nids: i64, items: Vec<Item>| Hist { sr0: 1000, ibs: 4, main: vec![], nids, items };
 	vec![
+		("regression_f14_add_change_callback", hist(1, vec![add(vec![]), ch(2000), cb(4)])),
+		("regression_f14_load_change_enqueue_callback", hist(1, vec![add(vec![AOp::Change(2000)]), cb(4)])),
+		("regression_f14_add_callback_change_callback", hist(1, vec![add(vec![]), cb(4), ch(2000), cb(4)])),
+		("regression_f14_change_add_callback", hist(1, vec![ch(2000), add(vec![]), cb(4)])),
+		// nested: a sub-track pushed on the queue of a track that is already in the arena
 		(
-			"witness_add_change_callback",
-			Hist { sr0: 1000, ibs: 4, main: vec![], nids: 1, items: vec![add(vec![]), Item::A(AOp::Change(2000)), Item::A(AOp::Callback(4))] },
+			"regression_f14_nested",
+			hist(
+				1,
+				vec![
+					Item::Add { dest: Dest::Sub { spatial: false }, tid: 1, effs: vec![], inject: vec![] },
+					cb(4),
+					addk(Dest::Under { pid: 1, spatial: false }, 2, 0, vec![]),
+					ch(2000),
+					cb(4),
+				],
+			),
 		),
+		// nested below a parent that is itself still queued
 		(
-			"witness_load_change_enqueue_callback",
-			Hist { sr0: 1000, ibs: 4, main: vec![], nids: 1, items: vec![add(vec![AOp::Change(2000)]), Item::A(AOp::Callback(4))] },
+			"regression_f14_nested_below_queued_parent",
+			hist(2, vec![addk(Dest::Sub { spatial: false }, 1, 0, vec![]), addk(Dest::Under { pid: 1, spatial: false }, 2, 1, vec![]), ch(2000), cb(4)]),
 		),
+		("regression_f14_send", hist(1, vec![addk(Dest::Send, 1, 0, vec![]), ch(2000), cb(4)])),
+		("regression_f14_send_racy", hist(1, vec![addk(Dest::Send, 1, 0, vec![AOp::Change(2000)]), cb(4)])),
+		("regression_f14_spatial", hist(1, vec![addk(Dest::Sub { spatial: true }, 1, 0, vec![]), ch(2000), cb(4)])),
+		("regression_f14_spatial_racy", hist(1, vec![addk(Dest::Sub { spatial: true }, 1, 0, vec![AOp::Change(2000)]), cb(4)])),
+		// through TrackHandle / SpatialTrackHandle, plain and spatial children, sequential and racy
 		(
-			"witness_add_callback_change_callback",
-			Hist { sr0: 1000, ibs: 4, main: vec![], nids: 1, items: vec![add(vec![]), Item::A(AOp::Callback(4)), Item::A(AOp::Change(2000)), Item::A(AOp::Callback(4))] },
+			"regression_f14_nested_kinds",
+			hist(
+				6,
+				vec![
+					addk(Dest::Sub { spatial: false }, 1, 0, vec![]),
+					addk(Dest::Sub { spatial: true }, 2, 1, vec![]),
+					cb(4),
+					addk(Dest::Under { pid: 1, spatial: true }, 3, 2, vec![]),
+					addk(Dest::Under { pid: 2, spatial: false }, 4, 3, vec![]),
+					ch(2000),
+					addk(Dest::Under { pid: 2, spatial: true }, 5, 4, vec![AOp::Change(3000)]),
+					addk(Dest::Under { pid: 3, spatial: false }, 6, 5, vec![AOp::Change(500), AOp::Callback(2)]),
+					cb(4),
+					cb(1),
+				],
+			),
 		),
+		// there and back while queued: the remembered rate is in force again, nobody is told anything
+		("regression_f14_there_and_back", hist(1, vec![add(vec![]), ch(2000), ch(1000), cb(4)])),
 		(
-			"witness_change_add_callback",
-			Hist { sr0: 1000, ibs: 4, main: vec![], nids: 1, items: vec![Item::A(AOp::Change(2000)), add(vec![]), Item::A(AOp::Callback(4))] },
-		),
-		(
-			"witness_delay_stale_length",
+			"regression_f14_delay_length",
 			Hist {
 				sr0: 1000,
 				ibs: 8,
@@ -648,7 +679,7 @@ enum FxKind {
 enum Order {
 	/// track in the arena, then change
 	ArenaThenChange,
-	/// add; change; (first callback afterwards)  -- F14 order
+	/// add; change; (first callback afterwards)  -- the order of the former F14
 	QueuedDuringChange,
 	/// change, then add
 	ChangeThenAdd,
@@ -707,8 +738,7 @@ fn effect_across_change(s: &mut Session, rng: &mut Rng, fx: FxKind, order: Order
 			f32::from_bits(a[k]),
 			f32::from_bits(b[k])
 		);
-		let known = order == Order::QueuedDuringChange && matches!(fx, FxKind::Delay(_));
-		s.fail(desc, what, if known { Some(STALE) } else { None });
+		s.fail(desc, what, None);
 	}
 }
 
@@ -743,7 +773,7 @@ fn filter_ratio_check(s: &mut Session, rng: &mut Rng, sr: u32, f: f64) {
 			s.fail(format!("{name} cutoff {f} Hz at {sr} Hz vs cutoff {} Hz at {} Hz / {} Hz at {} Hz", 2.0 * f, 2 * sr, f / 4.0, sr as f64 / 4.0), "same cutoff/rate ratio but different output: the coefficient does not depend on f/sr alone".into(), None);
 		}
 		if f / (sr as f64) < 0.4 && f / (sr as f64) > 0.001 && a == lo {
-			s.fail(format!("{name} at {sr} Hz"), format!("cutoff {f} Hz and {} Hz give identical output (harness not sensitive)", f * 0.5), None);
+			s.fail(format!("{name} at {sr} Hz"), format!("the effect was told init(1 Hz) and is driven with dt = 1/{sr}: cutoff {f} Hz and {} Hz give identical output -- the coefficient does not follow cutoff * dt (or the harness is not sensitive)", f * 0.5), None);
 		}
 	}
 }
@@ -869,8 +899,13 @@ pub fn run(args: &Args) {
 		300,
 		"protocol: one case = one history of add (manager.add_sub_track / add_spatial_sub_track / add_send_track, handle.add_sub_track / add_spatial_sub_track on nested tracks, with or without audio-thread steps injected between the load of the rate and the enqueue) / set_sample_rate / callback steps on a real AudioManager with probe effects (also inside real Delays' feedback chains); observables: (probe, rate last told, bits of dt, frames) of every process call in call order + every probe's full told-log; distinct = distinct history in which at least one probe processed",
 	);
-	for (kind, h) in witnesses() {
+	for (kind, h) in regressions() {
+		let before = s.failures.len();
 		emit_hist(&mut s, kind, &h);
+		// a fixed case must also have let its probes process (otherwise it checks nothing)
+		if s.failures.len() == before && run_hist(&h).nproc == 0 {
+			s.fail(h.describe(), format!("{kind}: no probe processed (harness problem)"), None);
+		}
 	}
 	enumerate_hists(&mut s, if args.thorough { 5 } else { 4 });
 	let n: u64 = (if args.thorough { 8000 } else { 700 }) * args.budget_mul;
